@@ -116,6 +116,8 @@ def check(ctx):
                 return "a waiter that was already granted a token leaves without returning it and notifying the next waiter"
             if intr and (setk[0], False) in facts and (disc or noti):
                 return "a waiter that was never granted a token gives one back"
+            if intr and setk not in facts and (setk[0], False) not in facts:
+                return "an interrupted waiter leaves without checking whether it had already been granted a token (event set)"
             return None
 
         ctx.paths("R10-d", f, [("wait", "await $E.wait()"), ("discard", f"self._borrowers.discard({bt})"),
